@@ -284,6 +284,9 @@ def showValue : Value → String
   | .not x => "not " ++ showVar x
   | .neg x => "neg " ++ showVar x
   | .callRt f args => s!"callrt {hostName f} " ++ " ".intercalate (args.map showVar)
+  | .listNew => "callrt new "
+  | .listGet l i => s!"callrt get {showVar l} {showVar i}"
+  | .idxAdd a b => s!"binop {showVar a} Add {showVar b}"
   | .toStr x => "callrt to_string " ++ showVar x
   | .append a b => s!"callrt append {showVar a} {showVar b}"
   | .call f args => s!"call f{f} " ++ " ".intercalate (args.map showVar)
@@ -327,6 +330,18 @@ partial def emitStm (g : Cfg) : Stm → Cfg
     let g := g.push s!"s {showVar x} {k} {tthen} {telse}"
     let g := if thn.isEmpty then g else (emitCode (g.goto lthen) thn).push s!"j {lcont}"
     let g := if els.isEmpty then g else (emitCode (g.goto lelse) els).push s!"j {lcont}"
+    g.goto lcont
+  | .push alias _ elem u => g.push s!"a {showVar u} = callrt push {showVar alias} {showVar elem}"
+  | .forL cond d body incr =>
+    -- `jump cond`; increment block; condition block `switch d [0 => body] else cont`; body `jump incr`
+    let (g, lincr) := g.newBlock
+    let (g, lcond) := g.newBlock
+    let (g, lbody) := g.newBlock
+    let (g, lcont) := g.newBlock
+    let g := g.push s!"j {lcond}"
+    let g := (emitCode (g.goto lincr) incr).push s!"j {lcond}"
+    let g := (emitCode (g.goto lcond) cond).push s!"s {showVar d} 0 {lbody} {lcont}"
+    let g := (emitCode (g.goto lbody) body).push s!"j {lincr}"
     g.goto lcont
   | .mtch d chains dflt arms =>
     -- arm blocks first (so that chains can name them), then the continuation, then the chains
